@@ -138,7 +138,8 @@ func checkC13(e *RunEnv) *CheckResult {
 	ignFiles := []string{"build/o", "x.log", "sub/y.log", "sub/build", "a.logx"}
 	_ = ignFiles
 	spec := &Spec{
-		Seeds: []Seed{{"S0", seedS0()}, {"S1", seedS1()}, {"S5", seedS5()}, {"S1+siblings", append(seedS0(), Write("d/x", v1("d/x")), Write("d.c", v1("d.c")), Write("d0", v1("d0")), Write("d-x", v1("d-x")), Write("dd/k", v1("dd/k")), Run("add", "d", "d.c", "d0", "d-x", "dd"), Run("commit", "-m", "c1"))}},
+		Seeds: []Seed{{"S0", seedS0()}, {"S1", seedS1()}, {"S5", seedS5()}, {"S1+siblings", append(seedS0(), Write("d/x", v1("d/x")), Write("d.c", v1("d.c")), Write("d0", v1("d0")), Write("d-x", v1("d-x")), Write("dd/k", v1("dd/k")), Run("add", "d", "d.c", "d0", "d-x", "dd"), Run("commit", "-m", "c1"))},
+			{"S1+ignored-files-with-later-siblings", append(seedS1(), Write(".goitignore", "build/\n*.log\n"), Write("x.log", "l\n"), Write("y-later", "u\n"), Write("z-later/f", "u\n"), Write("sub/y.log", "l\n"), Write("sub/z-later", "u\n"), Write("build/o", "o\n"), Write("c-after-build", "u\n"))}},
 		Depth: e.pick(3, 5),
 		Steps: func(n *Node) []Step {
 			a := n.Abs()
@@ -191,14 +192,45 @@ func checkC13(e *RunEnv) *CheckResult {
 			first, last := set[0], set[len(set)-1]
 			// an unstaged edit, a deletion from the working tree, untracked files next to tracked ones
 			steps = append(steps, Write(first, v2(first)), Run("status"), Delete(last), Write("zz new", "new\n"), Write("d~/u", "untracked dir\n"), Run("status"))
+			// an untracked file whose name differs from a tracked one only in the case of its letters
+			if cv := swapCase(first); cv != first && !collides(cv, set) {
+				steps = append(steps, Write(cv, "case variant, untracked\n"), Run("status"))
+			}
 			if dp := dirPrefixes(set); len(dp) > 0 {
 				steps = append(steps, Rmdir(dp[0]), Run("status"))
 			}
 			cs = append(cs, Case{Base: base, BaseName: "S0", BaseSeed: seedS0(), Steps: steps, Probe: true})
+		}
+		// 200 tracked files (the index file exceeds 4 KiB several times over) and 900 (index > 64 KiB)
+		for _, n := range []int{200, 900} {
+			cs = append(cs, Case{Base: base, BaseName: "S0", BaseSeed: seedS0(), Steps: append(hugeDirSteps(n), Write("huge/file-0003.txt", "edited, not staged\n"), Delete("huge/file-0150.txt"), Write("huge/new", "untracked\n"), Write("zz new", "untracked\n"), Run("status")), Probe: true})
 		}
 		sweep = x.RunCases(cs)
 	}, func(x *Explorer, cov map[string]interface{}) {
 		cov["name_sweep_cases"] = sweep
 		cov["states"] = x.States + sweep
 	})
+}
+
+func swapCase(s string) string {
+	b := []byte(s)
+	for i, c := range b {
+		switch {
+		case c >= 'a' && c <= 'z':
+			b[i] = c - 32
+		case c >= 'A' && c <= 'Z':
+			b[i] = c + 32
+		}
+	}
+	return string(b)
+}
+
+// collides: name equals, contains or lies beneath a member of set.
+func collides(name string, set []string) bool {
+	for _, m := range set {
+		if m == name || strings.HasPrefix(m, name+"/") || strings.HasPrefix(name, m+"/") {
+			return true
+		}
+	}
+	return false
 }
